@@ -177,7 +177,7 @@ def run(tier, seed):
     ob2 = {"engine": "smt", "harness": "s05_2_actor_history", "encodes_files": FILES,
            "encodes": ["Handler<RaftIndexRequest>::handle", "RaftIndexManager::{write_hard_state,write_member,add_node_addr,write_logs,write_last_applied_log,write_index,load_index_info}",
                        "RaftIndexInnerManager::{init,write_index,write_last_applied_log,flush}", "RaftIndex/LogRange/NodeAddrItem generated message code"],
-           "bound": "every sequence of %d requests over {SaveHardState(term < 2^14, vote < 2^7), SaveMember [1,2] + addresses, SaveMember [1] joint [1,3], AddNodeAddr 3, SaveLogs(one range), "
+           "bound": "every sequence of %d requests over {SaveHardState(term < 2^14, vote < 2^7), SaveMember [1,2] + addresses, SaveMember [1] joint [1,3], AddNodeAddr of node 2 or 3 with a fresh address per step, SaveLogs(one range), "
                     "SaveLastAppliedLog(< 2^59)}; observed after every request in the same process and once after a restart; the actor future "
                     "(async block .into_actor().map().wait()) is run to completion at the call (wait() blocks the mailbox)" % n,
            "queries": 0, "solver_s": 0.0, "distinct": 0}
@@ -278,6 +278,7 @@ def actor_history(prog, nsteps):
     init_fn = prog.methods[("RaftIndexInnerManager", "init")]
     handle = prog.trait_method("RaftIndexManager", "handle", "RaftIndexRequest")
     step = [z3.BitVec("req%d" % i, 8) for i in range(nsteps)]
+    addr_known = [z3.Bool("req%d_addr_of_node_2" % i) for i in range(nsteps)]
     terms = [z3.BitVec("term%d" % i, 64) for i in range(nsteps)]
     votes = [z3.BitVec("vote%d" % i, 64) for i in range(nsteps)]
     applied = [z3.BitVec("applied%d" % i, 64) for i in range(nsteps)]
@@ -363,12 +364,15 @@ def actor_history(prog, nsteps):
                 rec.append({"op": "save-member", "member": [1], "member_after_consensus": [1, 3], "node_addr": None})
                 log.append(("save-member", [1], "joint [1,3]"))
             elif op == 3:
-                msg = Enum("RaftIndexRequest", "AddNodeAddr", [3, "c:3"])
+                # the address differs from step to step: re-adding a known node under a new address is in the space
+                nid = 2 if it.branch(addr_known[i]) else 3
+                adr = "n%d:%d" % (nid, 9000 + i)
+                msg = Enum("RaftIndexRequest", "AddNodeAddr", [nid, adr])
                 na = dict(ref["addrs"])
-                na[3] = "c:3"
+                na[nid] = adr
                 upd = {"addrs": na}
-                rec.append({"op": "add-node-addr", "id": 3, "addr": "c:3"})
-                log.append(("add-node-addr", 3))
+                rec.append({"op": "add-node-addr", "id": nid, "addr": adr})
+                log.append(("add-node-addr", nid, adr))
             elif op == 4:
                 st = 5 + i
                 msg = Enum("RaftIndexRequest", "SaveLogs", [[Struct("LogRange", {"id": 1, "pre_term": 0, "start_index": st, "record_count": 0, "split_off_index": st,
